@@ -31,6 +31,9 @@ fn main() {
 		tool_error("usage: jsv <subcommand> ...");
 	}
 	let args = Args::parse(&argv[1..]);
+	if argv[0] != "nest-child" {
+		watchdog::start();
+	}
 	match argv[0].as_str() {
 		// replay spec-generated vectors (all kinds) from TLC output files
 		"replay" => {
@@ -58,6 +61,7 @@ fn main() {
 								Some(r) => r,
 								None => continue,
 							};
+							watchdog::set_context(&line);
 							match rec["k"].as_str() {
 								Some("parse_bytes") => parsev::replay_bytes(&mut rep, &rec),
 								Some("parse") => parsev::replay_parse(&mut rep, &rec),
